@@ -164,6 +164,19 @@ def path_eq_text(ex, st, a, b):
     return b_and(*[tcomp_eq(x[0], y[0]) for x, y in zip(ta, tb)])
 
 
+def split_ext(ex, st, name):
+    """rsplit_file_at_dot: (stem, ext-or-None)"""
+    if len(name) == 2 and ex.decide(st, b_and(is_ch(name[0], DOT), is_ch(name[1], DOT))):
+        return name, None
+    for i in range(len(name) - 1, -1, -1):
+        if ex.decide(st, is_ch(name[i], DOT)):
+            if i == 0:
+                return name, None
+            return name[:i], name[i + 1:]
+    return name, None
+
+
+
 def _fin_pathbuf_text(ex, st, cont, out, rest):
     b = PathBufT([])
     for c in out:
@@ -320,17 +333,6 @@ def make_textpath_models():
         if toks and toks[-1][0].kind == NORMAL:
             return opt_some(ex, BoxRef(SStr(toks[-1][0].text)))
         return opt_none(ex)
-
-    def split_ext(ex, st, name):
-        """rsplit_file_at_dot: (stem, ext-or-None)"""
-        if len(name) == 2 and ex.decide(st, b_and(is_ch(name[0], DOT), is_ch(name[1], DOT))):
-            return name, None
-        for i in range(len(name) - 1, -1, -1):
-            if ex.decide(st, is_ch(name[i], DOT)):
-                if i == 0:
-                    return name, None
-                return name[:i], name[i + 1:]
-        return name, None
 
     def m_extension(ex, st, args, callee, ty):
         toks = tokenize(ex, st, text_of(ex, st, args[0]))
